@@ -11,7 +11,7 @@ LEVEL = 'exploration'
 RULE = ('G1 programs biased towards nesting (blocks in blocks, empty blocks and bodies, object literals incl. nested '
         'and accessors, switch with empty / fall-through clauses and default anywhere, try/catch/finally, if-else '
         'chains, labelled blocks, multi-line strings; comments when parsed with capture), plus an enumerated family of programs nested 1..16 (thorough: 40) levels deep in 8 nesting patterns and of programs made long by one sibling list of 1200 items (printed under the default recursion limit), x indentation strings '
-        '(" ", "  ", tab, " \\t", 8 spaces, empty, random). Oracle (R6): the *output* is tokenised and parsed by the '
+        '(" ", "  ", tab, " \\t", 8 spaces, empty, random) x way of printing (pretty_print; obfuscate or minify(drop_semi=False) rule sets stacked under rules.indent, which indent is documented to shadow; rules.indent() deferring to the indent_str of the Dispatcher). Oracle (R6): the *output* is tokenised and parsed by the '
         'reference front end; for each output line that starts a token (or a comment), expected depth = number of '
         'brace pairs of blocks, function bodies, object literals and switch blocks enclosing the line\'s first token '
         '(a closing brace counts outside its pair) + 1 inside the statement list of a case/default clause; the line '
@@ -141,13 +141,36 @@ def check_output(acc, opens, case, out, indent):
     return maxdepth, (empties > 0 and nonempties > 0)
 
 
-def check(acc, opens, src, indent, with_comments, origin):
+PRINTERS = ['pretty_print', 'obfuscate+indent', 'minify+indent', 'indent_from_dispatcher']
+
+
+def render(tree, indent, printer):
+    """the documented ways of getting indented output: pretty_print; a rule set stacked under indent (which
+    the documentation says indent shadows); rules.indent() without an argument, deferring to the string the
+    Dispatcher was configured with"""
+    if printer == 'pretty_print':
+        return unparse.pretty(tree, indent)
+    from functools import partial
+    from calmjs.parse import rules
+    from calmjs.parse.unparsers.es5 import Unparser
+    from calmjs.parse.unparsers.walker import Dispatcher
+    if printer == 'obfuscate+indent':
+        u = Unparser(rules=(rules.obfuscate(obfuscate_globals=False), rules.indent(indent_str=indent)))
+    elif printer == 'minify+indent':
+        u = Unparser(rules=(rules.minify(drop_semi=False), rules.indent(indent_str=indent)))
+    else:
+        u = Unparser(rules=(rules.indent(),))
+        u.dispatcher_cls = partial(Dispatcher, indent_str=indent)
+    return ''.join(f.text for f in u(tree))
+
+
+def check(acc, opens, src, indent, with_comments, origin, printer='pretty_print'):
     tree, ref = unparse.source_in_domain(acc, src, with_comments=with_comments)
     if tree is None:
         return None
-    case = {'text': src, 'indent': indent, 'with_comments': with_comments, 'origin': origin}
+    case = {'text': src, 'indent': indent, 'with_comments': with_comments, 'origin': origin, 'printer': printer}
     try:
-        out = unparse.pretty(tree, indent)
+        out = render(tree, indent, printer)
     except Exception as e:
         acc.fail(None, case, {'bucket': 'print_raises:' + type(e).__name__, 'error': repr(e)[:200]}, opens)
         return None
@@ -158,7 +181,8 @@ def check(acc, opens, src, indent, with_comments, origin):
 
 
 def replay(case, acc):
-    check(acc, (), case['text'], case['indent'], case.get('with_comments', False), case.get('origin', 'replay'))
+    check(acc, (), case['text'], case['indent'], case.get('with_comments', False), case.get('origin', 'replay'),
+          case.get('printer', 'pretty_print'))
 
 
 from harness.shrink import text_shrinker  # noqa: E402
@@ -213,19 +237,20 @@ def run_shard(shard):
     acc = Acc()
     opens = shard['open_signatures']
 
-    def one(src, indent, wc, origin):
-        info = check(acc, opens, src, indent, wc, origin)
+    def one(src, indent, wc, origin, printer='pretty_print'):
+        info = check(acc, opens, src, indent, wc, origin, printer)
         nt = bool(info) and info['maxdepth'] >= 3 and info['mixed']
-        acc.case((src, indent, wc), nt, {'source': src, 'indent': indent, 'with_comments': wc,
-                                         'output': info['output']} if info else None)
+        acc.case((src, indent, wc, printer), nt, {'source': src, 'indent': indent, 'with_comments': wc,
+                                                  'printer': printer, 'output': info['output']} if info else None)
+        acc.label('printer_' + printer)
         if info:
             acc.label('maxdepth_%d' % min(info['maxdepth'], 6))
         acc.label('comments_%s' % wc)
     if shard['kind'] == 'deep':
         for depth in range(1, shard['max_depth'] + 1):
             for pat in DEEP_PATTERNS:
-                for indent in ('  ', '\t', ' '):
-                    one(deep_program(depth, pat), indent, False, 'deep')
+                for k, indent in enumerate(('  ', '\t', ' ')):
+                    one(deep_program(depth, pat), indent, False, 'deep', PRINTERS[(depth + k) % len(PRINTERS)])
         # long rather than deep: one sibling list of many items
         import sys
         limit = sys.getrecursionlimit()
@@ -237,8 +262,9 @@ def run_shard(shard):
             sys.setrecursionlimit(limit)
     elif shard['kind'] == 'g1':
         cfg = gen_program.Config(nesting_bias=True)
-        strat = st.tuples(gen_program.program_strategy(cfg=cfg, min_fuel=3, max_fuel=7), INDENTS, st.booleans())
-        run_given(strat, lambda x: one(x[0]['text'], x[1], x[2], 'g1'), shard['n'], shard['hseed'], acc)
+        strat = st.tuples(gen_program.program_strategy(cfg=cfg, min_fuel=3, max_fuel=7), INDENTS, st.booleans(),
+                          st.sampled_from(['pretty_print', 'pretty_print'] + PRINTERS))
+        run_given(strat, lambda x: one(x[0]['text'], x[1], x[2], 'g1', x[3]), shard['n'], shard['hseed'], acc)
     else:
         for src in c03.load_corpus():
             for indent in ('  ', '\t'):
